@@ -214,6 +214,10 @@ pub fn run(trace: &Trace, peers: &mut [Peer]) -> Outcome {
             return o;
         }};
     }
+    let lazy = (trace.seed.wrapping_mul(0x9e37_79b9_7f4a_7c15) >> 61) % 3 == 0;
+    let look = |ei: usize| (trace.seed ^ (ei as u64).wrapping_mul(0xd6e8_feb8_6659_fd93)).wrapping_mul(0x9e37_79b9_7f4a_7c15) >> 62 == 0;
+    let last_m = trace.events.iter().rposition(|e| matches!(e, Ev::Set { .. } | Ev::Append { .. } | Ev::Delete { .. }));
+    let last_membership = |ei: usize| Some(ei) == last_m;
     for (ei, ev) in trace.events.iter().enumerate() {
         match ev {
             Ev::Set { .. } | Ev::Append { .. } | Ev::Delete { .. } => {
@@ -241,6 +245,12 @@ pub fn run(trace: &Trace, peers: &mut [Peer]) -> Outcome {
                     // delete of a never-set position may be refused by a backend; the state is what counts
                     if r.get("transport").is_some() || r.get("panic").is_some() {
                         fail!("peer_failed", format!("{}: {} -> {}", p.name, req, r), ei);
+                    }
+                    // one scenario in three reads the builds' state only now and then (and after the last event): reading after
+                    // every event would force at once whatever a backend defers until the next read
+                    if lazy && !look(ei) && !last_membership(ei) {
+                        o.counters.inc("events_not_observed");
+                        continue;
                     }
                     let rr = p.call(json!({"cmd":"root"}));
                     let got = rr["bytes"].as_str().unwrap_or("").to_string();
